@@ -15,18 +15,24 @@ CLASSES = ["Model", "Package", "Class"]
 HAS = {"Model": ["packages", "classes"], "Package": ["packages", "classes"],
        "Class": ["classes", "extends", "type"]}
 
+_PROBES = ("('probec' pc=[Class:QName%(pc)s])? ('probep' pp=[Package:QName%(pp)s])? "
+           "('slashc' sc=[Class:SName%(sc)s])? ('slashp' sp=[Package:SName%(sp)s])?")
 _GRAMMAR = r'''
-Model:   ('probec' pc=[Class:QName%(RC)s])? ('probep' pp=[Package:QName%(RP)s])?
+Model:   PROBES
          packages*=Package classes*=Class;
 Package: 'package' name=ID uid=UID
-         ('probec' pc=[Class:QName%(RC)s])? ('probep' pp=[Package:QName%(RP)s])?
+         PROBES
          '{' packages*=Package classes*=Class '}';
 Class:   'class' name=ID uid=UID ('extends' extends+=[Class:UID][','])? ('type' type=[Class:UID])?
-         ('probec' pc=[Class:QName%(RC)s])? ('probep' pp=[Package:QName%(RP)s])?
+         PROBES
          ('{' classes*=Class '}')?;
 UID:     /#\d+/;
 QName:   ID('.'ID)*;
-'''
+SName[split='/']: ID('/'ID)*;
+'''.replace("PROBES", _PROBES)
+# the probing reference attribute for (target class, name delimiter) and its keyword
+PROBE = {("Class", "."): ("pc", "probec"), ("Package", "."): ("pp", "probep"),
+         ("Class", "/"): ("sc", "slashc"), ("Package", "/"): ("sp", "slashp")}
 
 
 # ---------------------------------------------------------------- abstract model helpers
@@ -131,12 +137,12 @@ def project_tree(tree):
 
 
 def model_text(objs, probe=None):
-    """probe = (start id, 'pc'|'pp', dotted name) adds one RREL-resolved reference."""
+    """probe = (start id, keyword, name text) adds one RREL-resolved reference."""
     out = []
 
     def pr(i):
         if probe and probe[0] == i:
-            return " probe%s %s" % (probe[1][1], probe[2])
+            return " %s %s" % (probe[1], probe[2])
         return ""
 
     def emit(i, ind):
@@ -203,20 +209,22 @@ class Real:
 
     def _mm(self, rrel_in_grammar, attr):
         r = ("|" + rrel_in_grammar) if rrel_in_grammar else ""
-        mm = self._mfs(_GRAMMAR % dict(RC=r if attr == "pc" else "", RP=r if attr == "pp" else ""))
+        mm = self._mfs(_GRAMMAR % {a: (r if a == attr else "") for a in ("pc", "pp", "sc", "sp")})
         mm.register_scope_providers({"Class.extends": _by_uid, "Class.type": _by_uid})
         return mm
 
     def mm(self, way, text, attr):
         """way 'grammar': a metamodel whose grammar carries the RREL on the probing attribute;
-        way 'provider': the RREL-free metamodel with the RREL string registered for that attribute."""
+        way 'provider': the RREL-free metamodel with the RREL string registered under "*.*", so that
+        one provider object serves all four probing attributes (two match rules with different
+        `split`) for as long as the same expression is probed."""
         if way == "provider":
             if self._prov is None:
                 self._prov = self._mm("", None)
-            if self._prov_key != (text, attr):
+            if self._prov_key != text:
                 self._prov.register_scope_providers({"Class.extends": _by_uid, "Class.type": _by_uid,
-                                                     "*." + attr: text})
-                self._prov_key = (text, attr)
+                                                     "*.*": text})
+                self._prov_key = text
             return self._prov
         k = (text, attr)
         if k not in self._mms:
@@ -264,23 +272,25 @@ class Real:
             return dict(res=oid(r._tx_obj), path=[oid(x) for x in r._tx_path], proxy=True)
         return dict(res=oid(r), path=[], proxy=False)
 
-    def find(self, key, objs, start, names, cls, expr, flags):
+    def find(self, key, objs, start, names, cls, expr, flags, delim="."):
         """way 1: textx.scoping.rrel.find on a loaded model."""
         from textx.scoping.rrel import find
         m, by = self.base_model(key, objs)
         try:
-            r = find(by[start], ".".join(names), self.tree(expr_text(expr, flags)),
-                     obj_cls=None if cls == "OBJECT" else self.base[cls], use_proxy="p" in flags)
+            r = find(by[start], delim.join(names), self.tree(expr_text(expr, flags)),
+                     obj_cls=None if cls == "OBJECT" else self.base[cls], split_string=delim,
+                     use_proxy="p" in flags)
         except Exception as e:  # noqa
             return dict(res=-1, path=[], proxy=False, err=type(e).__name__ + ": " + str(e)[:200])
         return self._project(r)
 
-    def load(self, way, objs, start, names, cls, expr, flags):
-        """way 2 ('grammar'): RREL written in the grammar; way 3 ('provider'): RREL string registered."""
+    def load(self, way, objs, start, names, cls, expr, flags, delim="."):
+        """way 2 ('grammar'): RREL written in the grammar; way 3 ('provider'): RREL string registered.
+        delim: the reference is written with the match rule QName ('.') or SName[split='/']."""
         from textx.exceptions import TextXSemanticError
-        attr = "pc" if cls == "Class" else "pp"
+        attr, kw = PROBE[(cls, delim)]
         mm = self.mm(way, expr_text(expr, flags), attr)
-        text = model_text(objs, (start, attr, ".".join(names)))
+        text = model_text(objs, (start, kw, delim.join(names)))
         try:
             m = mm.model_from_str(text)
         except TextXSemanticError as e:
